@@ -106,6 +106,15 @@ def gen(rng, tier, idx):
             # favour sets rich in equal-length alternative routes
             if rng.random() < 0.5 and len(c['shape']) >= 3:
                 c = _route_rich(rng, c)
+            if rng.random() < 0.15:
+                # an extent below the number of processes it is spread over (round 11): some ranks own nothing in
+                # some layouts and something in others ("ranks owning empty blocks included")
+                cand = [(o[j], p) for _, o in c['layouts'] for j, p in enumerate(c['nprocs']) if p > 1 and j < len(o)]
+                if cand:
+                    d, p = rng.choice(cand)
+                    c['shape'] = list(c['shape'])
+                    c['shape'][d] = rng.randint(1, p - 1)
+                    c['underfull'] = True
         else:
             c = c03._gen_plain(rng, tier, idx, rich=rng.random() < 0.4)
             c['mgr'] = 'swapper'
@@ -312,6 +321,15 @@ def run_layout(case, tape):
         return dict(nontrivial=(P > 1 and ncoll > 0), probes=probes, faults_extra=1)
 
     res = execute(ID, P, case['sched'], tape, rank_fn, post)
+    if case.get('underfull') and res['status'] == 'violation' and str(res['kind']).startswith('exception:'):
+        # as in C01: a shape with an extent below the process count may be refused by raising; blocking,
+        # mismatched collectives, differing routes and silently wrong data are judged
+        res.update(status='skip', kind='skip', nontrivial=False,
+                   message='extent below the process count refused: ' + str(res.get('message'))[:200])
+        res['probes'] = dict(res.get('probes') or {}, extent_below_process_count_refused=1)
+        return res
+    if case.get('underfull') and res['status'] == 'ok':
+        res['probes'] = dict(res.get('probes') or {}, extent_below_process_count=1)
     if res['status'] == 'violation' and case.get('salted') and \
             str(res['kind']) in ('exception:KeyError', 'exception:AssertionError'):
         # a name lookup failed: the code may legitimately normalise layout names to plain str,
